@@ -20,4 +20,28 @@ PROPS = {
         ],
         "partial": "the full statement (exactly the last N blocks after ANY sequence) is false of the code: during the re-connection phase of a reorg the index holds N-k blocks (theorem full_statement_fails; known finding). Proved: look-ups = last |blocks| blocks, no stale entry, true heights, |blocks| = N outside that phase.",
     },
+
 }
+
+TB_TOWER = TB_COMMON + [
+    "modelled, not verified: sqlite/rusqlite (PK, FK, ON DELETE CASCADE as in the schema), rust-bitcoin serialisation and hashing, secp256k1 recovery, ChaCha20-Poly1305 (ideal cipher in the model), tonic request plumbing",
+    "node replies are an oracle fixed for the duration of one tower operation (the simulated bitcoind answers from a per-operation table, which the model receives verbatim)",
+]
+AS_TOWER = [
+    "RIPEMD160(locator||user) is injective on the inputs used (uuid = (locator, user) in the model)",
+    "no u32 overflow in height + duration and expiry + grace (realistic configurations)",
+    "requests reach the internal API through the HTTP front end (non-empty locator of 16 bytes, appointment present)",
+    "sequential executions (concurrency is the subject of C10/C11)",
+]
+
+def _tower(partial):
+    return {"components": ["tower"], "trusted_base": TB_TOWER, "assumptions": AS_TOWER, "partial": partial}
+
+PROPS["C01"] = _tower("theorems are per breach (handle_breach, one loop iteration, add with cached dispute) plus the visiting lemma; the lifting to whole histories is by the correspondence run and the C01 monitors, not a single induction. `-27 already in chain` leaves the appointment watched (statement does not cover it). Late appointments after a reorg can miss the 6-block window (C19 deficit).")
+PROPS["C02"] = _tower("call sites of sendrawtransaction enumerated and each bounded by a theorem; the union over a whole block/history is checked by the C02 monitor on every RPC of every explored history.")
+PROPS["C04"] = _tower("per-tracker theorems for each of the four loops + block-level refund theorem; confirmed-in-active-chain over whole histories is monitored, not proved by one induction.")
+PROPS["C06"] = _tower("recover_pk is an input (the signer); the byte-exact request messages are recomputed by the harness independently of the tower's code.")
+PROPS["C07"] = _tower("conservation proved in differential form per primitive (sum form is recomputed by the monitor from the real tables after every operation); f32 formula proved exact below 2^24 and compared exhaustively with the real function.")
+PROPS["C07"]["components"] = ["tower", "slots"]
+PROPS["C08"] = _tower("signature scheme abstract here (C17); byte layouts in C16.")
+PROPS["C09"] = _tower("u32 wrap-around of the two unchecked additions excluded by precondition.")
